@@ -247,6 +247,11 @@ fn run_history(kind: &str, updates: &[Op], qpoints: &[bool], seed: u64, oracle: 
             let extra: Vec<(usize, &str, bool)> = qs.iter().filter(|_| rng.gen_bool(0.4)).map(|(a, k, c)| (*a, *k, !*c)).collect();
             qs.extend(extra);
             for (a, k, c) in qs {
+                // a query that makes more than 400 SAT calls on these small frameworks is not going to terminate (C18)
+                {
+                    let mut cm = ctl.borrow_mut();
+                    cm.cap = cm.n_solve + 400;
+                }
                 lines.push(do_query(&mut s, sem, k, a, c).to_string());
             }
         }
